@@ -361,6 +361,16 @@ func cmdCheck(args []string) int {
 			}
 		}
 	}
+	if *only == "" {
+		for _, ob := range P.patternObligations() {
+			for _, p := range ob.Props {
+				if p == *prop || *prop == "" {
+					obs = append(obs, ob)
+					break
+				}
+			}
+		}
+	}
 	if (*prop == "C06" || *prop == "C14" || *prop == "") && *only == "" {
 		for _, ob := range P.sweepObligations() {
 			for _, p := range ob.Props {
